@@ -30,6 +30,15 @@ CHECKS = {
    note="Named-loop variable nests are modelled and compared but outside the theorem. The aliasing defect (shared environment map) was repaired in /repo (61584fb); the model is of the repaired code.",
    technique="Coq proof (corollaries of the refinement theorem and inversion lemmas on the semantics) + differential correspondence on abandoned-binding templates",
    ref="DESIGN.md 7 C02"),
+ "C07": dict(
+   text="Theorems (closed): C07_reader_refines_file - for EVERY file content (so every size: 0, 1, around every multiple of the buffer, larger), every buffer size > 0 and every history of "
+        "(seek, read) operations the buffered reader answers exactly what the in-memory reader answers (the bytes, or '' when refused) and its refill loop never spins; C07_window_invariant "
+        "(0<=min<=max<=|f|, buffer = f[min,max)). The VM model reads text only through that interface. Tie: ReaderFromFile vs ReaderFromString vs the file's bytes vs the model on generated "
+        "histories at sizes k*2048+-1; RunFiles(NOTHING) vs Run on the same bytes.",
+   note="os.File Read/ReadAt, Stat and the OS are modelled, not verified. Histories are (seek; read) pairs, which is how the engine reads (READ/READAT always seek first). Programs whose cost is "
+        "cubic in the file size are run on small files only (performance is not part of the property). Repaired: 5ed415b (empty file), 586ff9a (zero-length read).",
+   technique="Coq proof (refinement of the sliding-window reader to the identity reader, symbolic sizes) + differential reader histories and file-vs-string runs",
+   ref="DESIGN.md 7 C07"),
  "C09": dict(
    text="Theorems (closed): C09_attempt_no_crash - wherever the specification is defined an attempt ends in SUCCESS or FAILED (every VM crash site is an explicit Crashed result "
         "of the model and is unreachable); C09_find_returns - for call-free, predicate-free patterns `find all` returns a match list on every text; C09_find_returns_when_defined. "
